@@ -55,6 +55,9 @@ def run(tier, seed, scale):
         # strict: the allocation of the long segment table fails while other growth calls already wait for it; everybody must throw or return
         Phase("rel-T", "c11", "rel", 6000 if q else 60000, procs=2 if q else 4, args=["--mode", "T"]),
         Phase("dbg-T", "c11", "dbg", 2000 if q else 20000, procs=1 if q else 2, args=["--mode", "T"]),
+        # class F: empty vector, two single-element calls at once, one of the two first-block allocations fails slowly; a call that returned keeps its element
+        Phase("rel-F", "c11", "rel", 40000 if q else 400000, procs=2 if q else 4, args=["--mode", "F"]),
+        Phase("dbg-F", "c11", "dbg", 10000 if q else 100000, procs=1 if q else 2, args=["--mode", "F"]),
         # huge sizes (one process each: seconds of CPU per size)
         Phase("rel-H31", "c11", "rel", 2, procs=1, args=["--mode", "H", "--hn", hx(P31, P31 + 5)], timeout=t_wedge),
         Phase("rel-H32", "c11", "rel", 1, procs=1, args=["--mode", "H", "--hn", hx(P32 + 10)], timeout=t_wedge),
@@ -100,6 +103,8 @@ def run(tier, seed, scale):
                 "class S: too few failed calls (constructor %d, allocation %d)" % (st.get("S_calls_failed_by_constructor", 0), st.get("S_calls_failed_by_allocation", 0)))
     chk.require(st.get("Salloc_scenarios", 0) + st.get("Salloc_wedged", 0) >= 3, "class Salloc was not exercised")
     chk.require(st.get("M_scenarios", 0) + st.get("M_wedged", 0) >= 3, "class M was not exercised")
+    chk.require(st.get("F_other_call_succeeded_and_kept_its_element", 0) >= need(5000, 50000) and st.get("F_both_calls_threw", 0) >= need(300, 3000),
+                "class F: first-block allocation failed while the other call succeeded in only %d scenarios (both threw: %d)" % (st.get("F_other_call_succeeded_and_kept_its_element", 0), st.get("F_both_calls_threw", 0)))
     chk.require(st.get("T_table_allocation_failed", 0) >= need(3000, 30000), "class T: the allocation of the long segment table failed in only %d scenarios" % st.get("T_table_allocation_failed", 0))
     chk.require(st.get("T_scenarios_where_other_calls_threw_too", 0) >= need(1500, 15000), "class T: only %d scenarios in which other growth calls ended with an exception as well" % st.get("T_scenarios_where_other_calls_threw_too", 0))
     chk.require(h.get("152", {}).get("h", [0] * 8)[4] >= need(500, 5000), "class T: only %d growth calls entered the wait for the long segment table" % h.get("152", {}).get("h", [0] * 8)[4])
@@ -109,6 +114,9 @@ def run(tier, seed, scale):
     chk.require(st.get("shadow_lookup_raced", 0) == 0 or chk.stats.get("shadow_lookup_raced", 0) < 100, "the construction-counter lookup raced with block publication too often (tsan variant)")
     chk.extra["windows"] = {
         "T_long_table_allocation_failures": st.get("T_table_allocation_failed", 0),
+        "F_first_block_allocation_failures": st.get("F_first_block_allocation_failed", 0),
+        "F_scenarios_where_the_other_call_succeeded_and_kept_its_element": st.get("F_other_call_succeeded_and_kept_its_element", 0),
+        "F_scenarios_where_both_calls_threw": st.get("F_both_calls_threw", 0),
         "T_scenarios_where_other_calls_threw_too": st.get("T_scenarios_where_other_calls_threw_too", 0),
         "T_calls_that_entered_the_wait_for_the_long_table(hook152 arg4)": h.get("152", {}).get("h", [0] * 8)[4],
         "growth_calls": {c: st.get(c + "_calls", 0) for c in ("G", "E", "M")},
